@@ -13,3 +13,4 @@ pub mod c10;
 pub mod project;
 pub mod c14;
 pub mod c15;
+pub mod c16;
